@@ -21,7 +21,7 @@ RULE = ("generated assemblies over every supported geometry, 1..4 modules, each 
 ASSUMPTIONS = ["features have exact positions; 'generated' product features are those of type source without a uid",
                "citation qualifiers are compared by C10, all other qualifiers here"]
 FLOORS = {"c08_three_level_compositions": 20, "c08_unlabelled_features_matched": 50, "c08_reassembled_after_edit": 100, "c08_judged": 400, "c08_nontrivial": 150, "c08_features_expected_to_survive": 500, "c08_features_expected_dropped": 500, "c08_registry_judged": 8}
-MUST_REACH = ["AbstractModule.target_sequence", "AbstractVector.target_sequence", "CircularRecord.__rshift__"]
+MUST_REACH = ["AbstractModule.target_sequence", "AbstractVector.target_sequence", "CircularRecord.__rshift__|CircularRecord.__lshift__"]
 NEEDS_REGISTRIES = True
 BUDGET_S = {"quick": 900, "thorough": 7200}
 
